@@ -177,7 +177,7 @@ def _pinned_joint():
 
 SUBCHECKS = [
     SubCheck(name="mask_helper_enumerated", enumerate=enumerate_masks, execute=execute_mask, exhaustive=True,
-             budget={"quick": 1, "thorough": 1}, shards={"quick": 4, "thorough": 16}, modes=["jit"]),
+             budget={"quick": 1, "thorough": 1}, shards={"quick": 4, "thorough": 16}, modes=["jit", "pyopt"]),
     SubCheck(name="mask_helper_random", strategy=random_mask_case, execute=execute_mask,
              budget={"quick": 500, "thorough": 20000}, shards={"quick": 1, "thorough": 4}, modes=["jit"]),
     SubCheck(name="joint_runs_boundaries", strategy=_joint_strategy, execute=execute_e2e, pinned=_pinned_joint,
